@@ -732,6 +732,10 @@ class ExecuteFam:
                     yield Case(f"execute_in_fragment {args}", desc, changed, key=args + o)
                 else:
                     yield Case(f"chk_execute {args} {o} {after}", desc, nontrivial=changed or r is None)
+                    if changed and not shared:
+                        # without shared objects the cells are irrelevant: the plain entry point `execute`
+                        yield Case(f"chk_prog (execute {t} {preds_s(ins)} {preds_s(order)}) {o}",
+                                   dict(desc, fn="SumAggregator.execute (default cells)"), nontrivial=True)
 
 
 FAMILIES = [AggAnalyticsFam(), AtMostRuleFam(), InitFam(), GetTriggerFam(), ElementPassesFam(), ReplaceElementsFam(),
